@@ -13,11 +13,11 @@ import json, os, subprocess, time
 from vlib import (BUILD, SPEC, VERIF, ToolError, build_harness, cache_get, cache_put, deviations_for,
                   parse_coverage, replay_parallel, run_tlc, tla_set, tree_hash, write_cfg, known_findings)
 
-RING_DEVIATIONS = ['WakeParkedOnlyAfterEnter', 'LeakFdOfAbandonedOp', 'LoseBufOfAbandonedOp']
+RING_DEVIATIONS = ['WakeParkedOnlyAfterEnter', 'LeakFdOfAbandonedOp', 'LoseBufOfAbandonedOp', 'CloseQueuedAfterRingDrop']
 
 RING_INVARIANTS = ['TypeOK', 'MemSafe', 'RoutedOK', 'DeliveredOK', 'DeliveredFinal', 'MultiPrefix',
                    'NeverSurfaces', 'NoLostWake', 'NoParkedBlock', 'FreedIsFinal', 'CancelOnlyDropped',
-                   'NoLeakAtQuiescence', 'NoResLeak', 'BufPartition', 'AllBuffersBack', 'CloseOnce']
+                   'NoLeakAtQuiescence', 'NoResLeak', 'BufPartition', 'AllBuffersBack', 'CloseOnce', 'RingGoneClean']
 
 # name -> constants of MC_Ring and the matching replay parameters.
 RING_CONFIGS = {
@@ -37,6 +37,15 @@ RING_CONFIGS = {
     'pool': dict(ops='{1, 2}', kind='K_pool', sqn=2, cqn=2, wakers='{1}', maxpost=1, maxrestart=0, maxblocked=1,
                  kinds='1=poolsingle,2=poolmulti', bufs='{0, 1}', extra=['--nbufs', '2'],
                  variants=[('base', 0, 0, None, [])]),
+    # teardown: the Ring may be dropped at any point, handles before or after it
+    'td': dict(ops='{1, 2}', kind='K_fd', sqn=2, cqn=2, wakers='{1}', maxpost=1, maxrestart=0, maxblocked=1,
+               kinds='1=fdsingle,2=multi', trackres='TRUE', teardown='TRUE', extra=['--track-res', '1'],
+               variants=[('file', 0, 0, None, ['--direct', '0'])]),
+    'tdp': dict(ops='{1, 2}', kind='K_pool', sqn=2, cqn=2, wakers='{1}', maxpost=1, maxrestart=0, maxblocked=1,
+                kinds='1=poolsingle,2=poolmulti', bufs='{0, 1}', teardown='TRUE', extra=['--nbufs', '2'],
+                variants=[('base', 0, 0, None, [])]),
+    'tds': dict(ops='{1, 2}', kind='K_st', sqn=2, cqn=2, wakers='{1}', maxpost=1, maxrestart=1, maxblocked=1,
+                kinds='1=single,2=twostep', teardown='TRUE', variants=[('base', 0, 0, None, [])]),
     'smt': dict(ops='{1, 2, 3}', kind='K_smt', sqn=2, cqn=4, wakers='{1}', maxpost=1, maxrestart=0, maxblocked=1,
                 kinds='1=single,2=multi,3=twostep'),
 }
@@ -55,7 +64,8 @@ CONSTANTS
     MaxBlocked = %(maxblocked)d
     Bufs = %(bufs)s
     TrackRes = %(trackres)s
-""" % dict(dict(bufs='{}', trackres='FALSE'), **c)
+    WithTeardown = %(teardown)s
+""" % dict(dict(bufs='{}', trackres='FALSE', teardown='FALSE'), **c)
     consts += '    Dev = %s\nCONSTRAINT Bounded\nCHECK_DEADLOCK FALSE\n' % tla_set(dev)
     if mode == 'check':
         consts += 'VIEW view\nINVARIANTS\n' + ''.join('    %s\n' % i for i in RING_INVARIANTS)
@@ -76,7 +86,7 @@ def engine_ring(tier, seed):
     bindir = build_harness()
     binary = os.path.join(bindir, 'replay_ring')
     dev = deviations_for(RING_DEVIATIONS)
-    configs = ['sm', 'st', 'm3', 'q1', 'fd', 'pool'] if tier == 'quick' else ['sm', 'st', 'm3', 'q1', 'fd', 'pool', 'smt']
+    configs = ['sm', 'st', 'm3', 'q1', 'fd', 'pool', 'td', 'tdp', 'tds'] if tier == 'quick' else ['sm', 'st', 'm3', 'q1', 'fd', 'pool', 'td', 'tdp', 'tds', 'smt']
     for name in configs:
         c = RING_CONFIGS[name]
         # 1. The contract (no deviation enabled) satisfies every invariant.
